@@ -110,9 +110,6 @@ theorem emitted_eq_encodeWith (o : Opts) (ord : List PCell) (ok : ∀ c ∈ ord,
 
 /-! ### the listing is `Valid` for these freedoms -/
 
-theorem popcount_le3 (m : Nat) (h : m ≤ 7) : Spec.popcount m + 1 = (List.replicate (Spec.popcount m + 1) (0 : Nat)).length := by
-  simp
-
 /-- every listing entry is well formed in the sense of the parser-side spec -/
 theorem cellsOK_order (H : Bytes → Bytes) (ord : List PCell) (h : OrdOK H ord) : CellsOK (ord.map (scOf ord)) := by
   intro pos hpos
@@ -265,5 +262,137 @@ mutual
       · exact a3 c hc
       · exact b3 c hc
 end
+
+/-! ### composition -/
+
+/-- `Cell.to_boc` (order + index lookups + layout) returns exactly the spec encoder's bytes for the library's freedoms -/
+theorem toBoc_eq_encodeWith (root : PCell) (fuel : Nat) (ord : List PCell) (o : Opts) (hv : o.valid = true)
+    (nc : NoCollision root) (ok : ∀ c ∈ subcells root, CellOK c) (h : root.order fuel = some ord)
+    (hn : ord.length < 2 ^ 32) (hP : (payloadOf (sizeW (orderRecs ord)) (orderRecs ord)).length * 2 < 2 ^ 64) :
+    root.toBoc fuel o = some (encodeWith (frOf o (orderRecs ord)) (ord.map (scOf ord)) [0]) ∧
+    root.toBoc fuel o = some (bodyOf o (orderRecs ord) ++ tailOf o (orderRecs ord)) := by
+  have vo := order_valid root fuel ord nc h
+  have okord : ∀ c ∈ ord, CellOK c := fun c hc => ok c (vo.sound c hc)
+  obtain ⟨hfl, hok, _⟩ := flatten_order root ord vo okord
+  have hlen : (orderRecs ord).length = ord.length := by simp [orderRecs]
+  have h1 : 1 ≤ (orderRecs ord).length := by
+    rw [hlen]
+    have := vo.root_first
+    cases ord with
+    | nil => simp at this
+    | cons a l => simp
+  have he := emit_eq o (orderRecs ord) hv h1 (by rw [hlen]; exact hn) hP hok
+  have hb : root.toBoc fuel o = some (bodyOf o (orderRecs ord) ++ tailOf o (orderRecs ord)) := by
+    simp only [PCell.toBoc, h, hfl, Option.bind_eq_bind, Option.bind_some, he]
+    rfl
+  exact ⟨by rw [hb, emitted_eq_encodeWith o ord okord], hb⟩
+
+/-- **THE ROUND TRIP on bytes**: for a spec-valid typed tree, the parser model applied to what the emitter model produces
+returns exactly one root: the same tree, with the cached info of the original object. -/
+theorem fromBoc_toBoc (H : Bytes → Bytes) (t : Cell) (wf : CellSpec.TreeWF H t) (ty : Typed t) (p : PCell)
+    (hb : Cell.build H t = some p) (nc : NoCollision p) (fuel : Nat) (ord : List PCell) (h : p.order fuel = some ord)
+    (o : Opts) (hv : o.valid = true) (hn : ord.length < 2 ^ 32)
+    (hP : (payloadOf (sizeW (orderRecs ord)) (orderRecs ord)).length * 2 < 2 ^ 64) :
+    p.toBoc fuel o = some (bodyOf o (orderRecs ord) ++ tailOf o (orderRecs ord)) ∧
+    BocParse.fromBoc H (bodyOf o (orderRecs ord) ++ tailOf o (orderRecs ord)) = some [(t, p.info)] := by
+  have okp := build_ok H t p (shape_of H t wf ty) hb
+  obtain ⟨sem, _⟩ := sem_of_tree H t p wf ty hb
+  have vo := order_valid p fuel ord nc h
+  have oo := ordOK_of_valid H p ord vo nc okp sem
+  obtain ⟨rest, hord⟩ : ∃ rest, ord = p :: rest := by
+    have := vo.root_first
+    cases ord with
+    | nil => simp at this
+    | cons a l => simp at this; exact ⟨l, by rw [this]⟩
+  have h1 : 1 ≤ ord.length := by rw [hord]; simp
+  obtain ⟨henc, hbs⟩ := toBoc_eq_encodeWith p fuel ord o hv nc okp h hn hP
+  obtain ⟨t1, t2, t3⟩ := build_tree H t p hb
+  have hcon : ∀ t' ∈ ord.map treeOf, (Cell.info H t').isSome := by
+    intro t' ht'
+    obtain ⟨c, hc, rfl⟩ := List.mem_map.1 ht'
+    rw [t3 c (vo.sound c hc)]; rfl
+  obtain ⟨out, hout, hroots, hinfo⟩ := Proofs.BocParse.encode_accepts H _ _ [0] (valid_order H o hv ord oo h1 hn hP)
+    _ (denote_order H ord oo) hcon
+  refine ⟨hbs, ?_⟩
+  rw [emitted_eq_encodeWith o ord oo.ok, hout]
+  have h0 : (ord.map treeOf)[0]? = some t := by rw [hord]; simp [t1]
+  simp only [List.mapM_cons, List.mapM_nil, h0, Option.pure_def, Option.bind_eq_bind, Option.bind_some] at hroots
+  have hmap : out.map (·.1) = [t] := (Option.some.inj hroots).symm
+  match out, hmap, hinfo with
+  | [(t', i')], hmap, hinfo =>
+    simp only [List.map_cons, List.map_nil, List.cons.injEq, and_true] at hmap
+    subst hmap
+    have := hinfo (t', i') (by simp)
+    simp only at this
+    rw [t2] at this
+    rw [Option.some.inj this]
+
+/-! ### the two models of `Boc.__init__` agree on the texts at hand
+
+`Model/BocForms.lean` (`inputBytes`, CPython's non-strict `a2b_base64` state machine) is the reference model of the input
+form detection; `Model/BocParse.lean` carries a second, simpler one (`bocInit`: same `fromhex`, canonical base64 only).
+`bytes.fromhex` is the same function in both; on the base64 text `b64encode` produces the simpler decoder succeeds with
+the same bytes. -/
+
+theorem parse_fromHex_eq : ∀ (n : Nat) (s : List Char), s.length ≤ n → BocParse.fromHex s = BocForms.fromHex s
+  | _, [], _ => rfl
+  | 0, _ :: _, h => by simp at h
+  | n + 1, c :: rest, h => by
+    have hs : BocParse.isAsciiSpace c = BocForms.isAsciiSpace c := rfl
+    have ih := parse_fromHex_eq n rest (by simpa using h)
+    rw [BocParse.fromHex.eq_def]; simp only []
+    unfold BocForms.fromHex at ih ⊢
+    rw [BocForms.fromHexGo, hs]
+    by_cases hsp : BocForms.isAsciiSpace c = true
+    · simp only [hsp, if_true]; exact ih
+    · simp only [hsp, if_false, Bool.false_eq_true]
+      cases rest with
+      | nil => cases hexVal? c <;> simp [BocForms.fromHexGo]
+      | cons d rest' =>
+        have ih' := parse_fromHex_eq n rest' (by simp at h ⊢; omega)
+        unfold BocForms.fromHex at ih'
+        cases hx : hexVal? c with
+        | none => simp
+        | some x =>
+          simp only [Option.bind_eq_bind, Option.bind_some, BocForms.fromHexGo]
+          cases hy : hexVal? d with
+          | none => simp
+          | some y =>
+            simp only [Option.bind_some, ih']
+            cases BocForms.fromHexGo rest' none <;> rfl
+
+theorem parse_fromHex (s : List Char) : BocParse.fromHex s = BocForms.fromHex s := parse_fromHex_eq s.length s (Nat.le_refl _)
+
+theorem parse_b64Val_b64Char : ∀ n, n < 64 → BocParse.b64Val? (BocForms.b64Char n) = some n := by decide
+
+theorem parse_fromB64_b64Enc : ∀ (b : Bytes), Bytes.WF b → BocParse.fromB64 (BocForms.b64Enc b) = some b
+  | [], _ => rfl
+  | [a], h => by
+    have ha : a < 256 := h a (by simp)
+    rw [BocForms.b64Enc, BocParse.fromB64]
+    simp only [parse_b64Val_b64Char _ (show a / 4 < 64 by omega), parse_b64Val_b64Char _ (show a % 4 * 16 < 64 by omega),
+      Option.bind_eq_bind, Option.bind_some, Option.pure_def, Option.some.injEq, List.cons.injEq, and_true]
+    omega
+  | [a, b], h => by
+    have ha : a < 256 := h a (by simp)
+    have hb : b < 256 := h b (by simp)
+    have hne : BocForms.b64Char (b % 16 * 4) ≠ '=' := BocForms.b64Char_ne_pad _ (by omega)
+    rw [BocForms.b64Enc, BocParse.fromB64.eq_3 _ _ _ (by intro h1; exact absurd h1 hne)]
+    simp only [parse_b64Val_b64Char _ (show a / 4 < 64 by omega), parse_b64Val_b64Char _ (show a % 4 * 16 + b / 16 < 64 by omega),
+      parse_b64Val_b64Char _ (show b % 16 * 4 < 64 by omega),
+      Option.bind_eq_bind, Option.bind_some, Option.pure_def, Option.some.injEq, List.cons.injEq, and_true]
+    omega
+  | a :: b :: c :: rest, h => by
+    have ha : a < 256 := h a (by simp)
+    have hb : b < 256 := h b (by simp)
+    have hc : c < 256 := h c (by simp)
+    have ih := parse_fromB64_b64Enc rest (fun x hx => h x (by simp [hx]))
+    have hne3 : BocForms.b64Char (b % 16 * 4 + c / 64) ≠ '=' := BocForms.b64Char_ne_pad _ (by omega)
+    have hne4 : BocForms.b64Char (c % 64) ≠ '=' := BocForms.b64Char_ne_pad _ (by omega)
+    rw [BocForms.b64Enc, BocParse.fromB64.eq_4 _ _ _ _ _ (by intro h1; exact absurd h1 hne3) (by intro h1; exact absurd h1 hne4)]
+    simp only [parse_b64Val_b64Char _ (show a / 4 < 64 by omega), parse_b64Val_b64Char _ (show a % 4 * 16 + b / 16 < 64 by omega),
+      parse_b64Val_b64Char _ (show b % 16 * 4 + c / 64 < 64 by omega), parse_b64Val_b64Char _ (show c % 64 < 64 by omega), ih,
+      Option.bind_eq_bind, Option.bind_some, Option.pure_def, Option.some.injEq, List.cons.injEq, and_true]
+    omega
 
 end TonVerif.Proofs.BocRoundTrip
